@@ -41,13 +41,19 @@ func vhCheckRegistration(st t_api.StatusCode, p *promise.Promise, cb *callback.C
 		return
 	}
 	vx.Reach("not-inserted")
-	// the insert matched nothing: either the registration exists already, or the promise completed meanwhile;
-	// the acknowledgement must not make the caller wait for a wake-up that will never come
-	stillPending := vx.Lookup(vx.YieldPre(1), "promises", pid).Int("state") == 1
-	vx.Assert(vx.Implies(stillPending, vx.Or(int64(p.State) != 1, row.Present())), "C05:ack-leaves-registration-or-reports-completed")
-	// known finding D1: the promise completed between this request's read and its insert; the answer still says pending
-	vx.Assert(vx.Implies(!stillPending, vx.Or(int64(p.State) != 1, row.Present())), "C05:ack-after-concurrent-completion-reports-completed")
+	// the insert matched nothing (yield 1) and the coroutine re-read the promise (yield 2): either the
+	// registration exists already, or the promise completed meanwhile and the answer says so -
+	// the acknowledgement never makes the caller wait for a wake-up that will not come
+	vx.Assert(n == 3, "C05:unmatched-insert-is-followed-by-a-re-read")
 	vx.Assert(vx.SameDB(vx.YieldPre(1), vx.YieldPost(1)), "C05:second-registration-changes-nothing")
+	prow := vx.Lookup(last, "promises", pid)
+	vx.Assert(vx.Implies(prow.Present(), vhBodyIsRow(p, prow)), "C01:body-is-row")
+	blocker := vx.Lookup(vx.YieldPre(1), "callbacks", cbId)
+	foreign := vx.And(blocker.Present(), blocker.Str("promise_id") != pid)
+	vx.Assert(vx.Implies(!foreign, vx.Or(int64(p.State) != 1, row.Present())), "C05:ack-leaves-registration-or-reports-completed")
+	// known finding D12: the ':'-joined derived ids are not injective; a registration of ANOTHER promise that
+	// happens to carry the same derived id makes this one look like a duplicate and it is silently dropped
+	vx.Assert(vx.Implies(foreign, vx.Or(int64(p.State) != 1, vx.And(row.Present(), row.Str("promise_id") == pid))), "C05:colliding-derived-id-must-not-drop-the-registration")
 }
 
 func VH_CB_CreateCallback() {
